@@ -79,6 +79,6 @@ GHOSTS = {
     'fs_kind': z3.ArraySort(StrS, KindS),     # real file system: Absent / File / Dir per path
     'eff': z3.SeqSort(Effect),                # mutating primitives executed by the library so far
     'ncalls': IntS,                           # number of user callbacks invoked so far
-    'alloc': z3.ArraySort(ObjS, BoolS),       # allocated objects
+    'alloc': IntS,                            # allocation clock: object o exists iff birth(o) < alloc
     'fs_epoch': IntS,                         # bumped whenever file *contents/metadata* may change
 }
